@@ -8,7 +8,7 @@
 EXTENDS Universe, Json
 NoTable == [k \in {} |-> 0]
 
-CONSTANT MaxObj
+CONSTANTS MaxObj, Wide
 
 VARIABLES store, attr, todo, nextid, objs
 evars == <<store, attr, todo, nextid, objs>>
@@ -19,7 +19,11 @@ ValsOf(kind) ==
     [] kind = "int"    -> <<Num("int", -1, 1), Num("int", 0, 1), Num("int", 1, 1), Num("int", 2, 1), Num("int", 1, 1)>>
     [] kind = "bool"   -> <<Num("bool", 0, 1), Num("bool", 1, 1)>>
 
-BankList == <<<<"A", "bk1">>, <<"A", "bk2">>, <<"B", "bk1">>, <<"B", "bk2">>>>
+\* Wide: also the further built-in collections, the singleton and the metadata-declared one (C06)
+BankList == IF Wide
+            THEN <<<<"A", "bk1">>, <<"A", "bk2">>, <<"B", "bk1">>, <<"X1", "bk1">>, <<"X1", "bk2">>, <<"X2", "bk1">>,
+                   <<"S", "bk1">>, <<"Z", "bk1">>, <<"Z", "bk2">>>>
+            ELSE <<<<"A", "bk1">>, <<"A", "bk2">>, <<"B", "bk1">>, <<"B", "bk2">>>>
 \* -1 = the bank is not in the event (rare), otherwise the number of objects
 SizeChoices == <<0, 1, 1, 2, 2, 2, 0, 1, 2, -1>>
 
@@ -33,11 +37,11 @@ Ids(first, n) == [i \in 1..n |-> first + i - 1]
 EInit == /\ store = [k \in {} |-> <<>>] /\ attr = [k \in {} |-> 0]
          /\ todo = [i \in 1..Len(BankList) |-> Slot("bank", BankList[i][1], BankList[i][2], 0, 0)]
          /\ nextid = 1
-         /\ objs = [cl \in {"A", "B", "T"} |-> <<>>]
+         /\ objs = [cl \in {"A", "B", "T", "M", "I", "Z"} |-> <<>>]
 
 FillBank(sl) ==
   \E i \in DOMAIN SizeChoices :
-    LET n == IF SizeChoices[i] > MaxObj THEN MaxObj ELSE SizeChoices[i]
+    LET n == IF sl.a \in Singletons THEN 1 ELSE IF SizeChoices[i] > MaxObj THEN MaxObj ELSE SizeChoices[i]
         cls == CollClass[sl.a] IN
     IF n < 0
     THEN /\ todo' = Tail(todo) /\ UNCHANGED <<store, attr, nextid, objs>>
